@@ -107,10 +107,10 @@ PLOf(id) ==
   ELSE LET t == ExtraSeq[id - NF * NS] IN [i \in 1..Len(t) |-> First((t[i] % NF) + 1)] \o <<CanaryGet>>
 AllIds == 1..NP
 
-Vec(id) == LET p == PLOf(id) IN [id |-> id, p |-> p, allowed |-> Allowed(p), full |-> Len(RFCSeq(p))]
+Vec(id) == LET p == PLOf(id)  s == RFCSeq(p) IN [id |-> id, p |-> p, allowed |-> CutAmb(s), full |-> Len(s)]
 
 ASSUME PrintT(<<"FIRSTS", NF, "PIPELINES", NP>>)
 ASSUME ndJsonSerialize("vectors.ndjson", [id \in 1..NP |-> Vec(id)])
 
-Inv == PrefixInv /\ AllowedInv /\ RespShape /\ RefSane
+Inv == AllInv
 =============================================================================
